@@ -28,6 +28,7 @@ type mutant struct {
 
 func main() {
 	dir := "/repo/trzsz"
+	set := os.Getenv("MUTSET") // "" = set 1 (negate-if, drop-stmt); "2" = rel-boundary, and-or, bool-flip, cond-false, swap-break-continue
 	if len(os.Args) > 1 {
 		dir = os.Args[1]
 	}
@@ -60,7 +61,51 @@ func main() {
 					if len(txt) > 80 {
 						txt = txt[:80]
 					}
-					enc.Encode(mutant{ID: fmt.Sprintf("m%04d", n), File: base, Line: fset.Position(start).Line, Func: fname, Kind: kind, Start: s, End: e, Repl: repl, Text: strings.ReplaceAll(txt, "\n", " ")})
+					pfx := "m"
+					if set == "2" {
+						pfx = "n"
+					}
+					enc.Encode(mutant{ID: fmt.Sprintf("%s%04d", pfx, n), File: base, Line: fset.Position(start).Line, Func: fname, Kind: kind, Start: s, End: e, Repl: repl, Text: strings.ReplaceAll(txt, "\n", " ")})
+				}
+				if set == "2" {
+					switch x := nd.(type) {
+					case *ast.BinaryExpr:
+						swap := map[token.Token]string{token.LSS: "<=", token.LEQ: "<", token.GTR: ">=", token.GEQ: ">"}
+						if r, ok := swap[x.Op]; ok {
+							emit("rel-boundary", x.OpPos, x.OpPos+token.Pos(len(x.Op.String())), r)
+						}
+						if x.Op == token.LAND {
+							emit("and-or", x.OpPos, x.OpPos+2, "||")
+						}
+						if x.Op == token.LOR {
+							emit("and-or", x.OpPos, x.OpPos+2, "&&")
+						}
+					case *ast.Ident:
+						if x.Name == "true" {
+							emit("bool-flip", x.Pos(), x.End(), "false")
+						}
+						if x.Name == "false" {
+							emit("bool-flip", x.Pos(), x.End(), "true")
+						}
+					case *ast.IfStmt:
+						if x.Else == nil && len(x.Body.List) > 0 {
+							switch l := x.Body.List[len(x.Body.List)-1].(type) {
+							case *ast.ReturnStmt:
+								emit("cond-false", x.Cond.Pos(), x.Cond.End(), "false")
+							case *ast.BranchStmt:
+								_ = l
+								emit("cond-false", x.Cond.Pos(), x.Cond.End(), "false")
+							}
+						}
+					case *ast.BranchStmt:
+						if x.Label == nil && x.Tok == token.BREAK {
+							emit("swap-break-continue", x.Pos(), x.End(), "continue")
+						}
+						if x.Label == nil && x.Tok == token.CONTINUE {
+							emit("swap-break-continue", x.Pos(), x.End(), "break")
+						}
+					}
+					return true
 				}
 				switch x := nd.(type) {
 				case *ast.IfStmt:
